@@ -99,6 +99,9 @@ def run_spec(spec, repo_root=None, timeout=1500):
                     out["fails"].append(json.loads(m.group(1)))
                 except Exception:
                     out["fails"].append(dict(raw=m.group(1)))
+            m = re.search(r"VXW-NOTE (.*)", line)
+            if m and len(out.setdefault("notes", [])) < 20:
+                out["notes"].append(m.group(1)[:300])
             m = re.search(r"VXW-DONE (\d+)", line)
             if m:
                 out["cases"] += int(m.group(1))
@@ -147,5 +150,6 @@ if __name__ == "__main__":
     for r in run_property(sys.argv[1], sys.argv[2] if len(sys.argv) > 2 else None):
         r2 = dict(r, fails=r["fails"][:5], n_fails=len(r["fails"]))
         print(json.dumps(r2, indent=1)[:6000])
+        print("SUMMARY %s cases=%d fails=%d error=%s wall=%ss" % (r["name"], r["cases"], len(r["fails"]), r["error"], r["wall_s"]))
         bad += len(r["fails"])
     sys.exit(1 if bad else 0)
